@@ -153,6 +153,33 @@ func runArchiveScenario(seed uint64, size int, t *Trace) error {
 		}
 		nextID++
 	}
+	// an authorization submitted while its log cannot be appended to (the path leads to /dev/full: the open
+	// succeeds, the write fails). It has to be refused; if it is answered with success the device is used
+	// like any other, and its reports end up in archives that hold no authorization for them.
+	faultDevice := func() {
+		if !registered {
+			return
+		}
+		if _, err := os.Stat("/dev/full"); err != nil {
+			return
+		}
+		path := filepath.Join(e.Dir, "equipment-authorizations.dat")
+		if os.Rename(path, path+".aside") != nil {
+			return
+		}
+		os.Symlink("/dev/full", path)
+		k := detKey(seed, int(nextID))
+		ea := SignAuth(mkAuth(nextID, k, 1e12), e.GCA.Priv)
+		st, _ := e.Authorize(ea)
+		os.Remove(path)
+		os.Rename(path+".aside", path)
+		t.Count(fmt.Sprintf("archive.fault-authorize:%d", st))
+		if st == 200 {
+			devs = append(devs, devInfo{nextID, k, ea})
+			e.S.VerifInject(MkReport(nextID, glow.CurrentTimeslot(), 500+uint64(nextID), k.Priv).Serialize())
+		}
+		nextID++
+	}
 	report := func() {
 		if len(devs) == 0 {
 			return
@@ -191,6 +218,9 @@ func runArchiveScenario(seed uint64, size int, t *Trace) error {
 				fn := bursts[name]
 				server.VerifSetPoint("archive-before:"+f, fn)
 			}
+		}
+		if r.Chance(20) {
+			faultDevice()
 		}
 		time.Sleep(70 * time.Millisecond) // let the rate window pass
 		regAtStart := registered
